@@ -2,7 +2,8 @@
    Only statements; every proof is [exact] of a lemma of Tree/GenProofs.v. *)
 From Coq Require Import List Arith.
 Import ListNotations.
-From Onet Require Import Tree.Gen Tree.GenProofs.
+From Onet Require Import Tree.Gen Tree.GenProofs Tree.GenBigProofs.
+From Coq Require Import Permutation.
 
 (* The n-ary generator (and hence the binary and star generators) returns, in
    creation = breadth-first order, exactly the closed form: node k >= 1 sits on
@@ -48,15 +49,26 @@ Print Assumptions c12_big_count.
 
 (* ... and its levels are filled breadth-first: with [sizes] the level sizes (root level
    first), they sum to [nodes], the first is 1, every level but the deepest is N times the
-   level above it and the deepest holds between 1 and N times the level above it.
-   (Partial on the big generator: that it never crashes / always returns, and that
-   nodes = roster size uses every member exactly once, are checked on every observation by
-   the checker of Corr/C12.v, not proved.) *)
+   level above it and the deepest holds between 1 and N times the level above it. *)
 Theorem c12_big_levels : forall hosts N nodes sizes, 1 <= N -> 1 <= nodes ->
   gen_big_sizes hosts N nodes = Some sizes ->
   list_sum sizes = nodes /\ rshape N (rev sizes).
 Proof. exact gen_big_levels. Qed.
 Print Assumptions c12_big_levels.
+
+(* the big generator never crashes: for every non-empty roster, every host pattern, every
+   branching factor >= 1 and every node count it returns a tree (the inner search loop
+   ends within its 2n+2 iterations, every index is in range, every level adds a node) *)
+Theorem c12_big_returns : forall hosts N nodes, hosts <> [] -> 1 <= N ->
+  exists l, gen_big hosts N nodes = GTree l.
+Proof. exact gen_big_returns. Qed.
+Print Assumptions c12_big_returns.
+
+(* when the node count equals the roster size every member is used exactly once *)
+Theorem c12_big_use_all : forall hosts N, hosts <> [] -> 1 <= N ->
+  exists l, gen_big hosts N (length hosts) = GTree l /\ Permutation (map fst l) (seq 0 (length hosts)).
+Proof. exact gen_big_use_all. Qed.
+Print Assumptions c12_big_use_all.
 
 Example c12_big_sizes_example : gen_big_sizes [0; 1; 2] 2 12 = Some [1; 2; 4; 5].
 Proof. exact big_sizes_example. Qed.
